@@ -134,6 +134,17 @@ func P1() []*Program {
 			add("meta-"+e+"-named"+r, p2)
 		}
 	}
+	// the long spelling of every scalar type (uint16 for u16, float64 for f64, ...)
+	for _, t := range Scalars {
+		if t == "char" {
+			continue
+		}
+		f := Sc(t, "Val")
+		f.Alias = true
+		g := Rep(Sc(t, "Vals"))
+		g.Alias = true
+		add("alias-"+t, prog("", Root("Msg", f, g)))
+	}
 	// match
 	pay := func() []*Packet {
 		return []*Packet{Pk("Alpha", Sc("u32", "A1"), Ds("A2")), Pk("Beta", Sc("u8", "B1")), Pk("Empty")}
